@@ -212,14 +212,14 @@ def all_group_models(repo, chk=None):
     return out
 
 
-def instantiated_classes(repo):
-    """Names of repository classes reachable from the public groups through
-    add_subsystem (any valuation)."""
+def instantiated_classes(repo, roots=None):
+    """Names of repository classes reachable from the public groups (or from
+    ``roots``) through add_subsystem (any valuation)."""
     byname = {}
     for c in repo.groups():
         byname.setdefault(c.name, []).append(c)
     reach = set()
-    work = [c for n in PUBLIC_GROUPS for c in byname.get(n, [])]
+    work = [c for n in (roots or PUBLIC_GROUPS) for c in byname.get(n, [])]
     seen = set()
     while work:
         c = work.pop()
